@@ -94,7 +94,9 @@ class IoProxy(types.ModuleType):
     def open(self, file, mode="r", *a, **kw):
         f = self.__dict__["_real"].open(file, mode, *a, **kw)
         target, k, persist, counter = self.__dict__["_cfg"]
-        if isinstance(file, (str, os.PathLike)) and os.path.realpath(file) == target and ("w" in mode or "+" in mode or "x" in mode):
+        # any file the save opens for writing in the cache directory (the cache file itself, or a temporary sibling that an
+        # atomic-rename implementation writes first)
+        if isinstance(file, (str, os.PathLike)) and os.path.dirname(os.path.realpath(file)) == os.path.dirname(target) and ("w" in mode or "+" in mode or "x" in mode):
             return FaultyFile(f, k, persist, counter)
         return f
 
